@@ -74,10 +74,22 @@ def build_traces(path, tier, seed):
         x = rand_series(rng, n)
         tol = float(rng.choice([0.3, 1.0, 2.0, 2.5, rng.uniform(0.01, 3)]))
         arg = x if tid % 4 else x.tolist()
+        import eqsig
+        way = tid % 3      # 0: explicit keywords, 1: defaults (keep_adj_zeros=False, tol=0), 2: signal-level wrappers
+        if way == 1:
+            zcf = pc.get_zero_crossings_array_indices(arg)
+            sw0 = pc.get_switched_peak_array_indices(arg)
+        elif way == 2:
+            sobj = eqsig.AccSignal(x, 0.01)
+            zcf = pc.get_zero_crossings_indices(sobj)
+            sw0 = pc.get_switched_peak_indices(sobj) if tid % 2 else pc.get_switched_peak_indices(x)
+        else:
+            zcf = pc.get_zero_crossings_array_indices(arg, keep_adj_zeros=False, tol=0.0)
+            sw0 = pc.get_switched_peak_array_indices(arg, tol=0.0)
         rec = {"tid": tid, "x": enc_seq(x), "tol": enc(tol),
-               "zcf": [int(i) for i in pc.get_zero_crossings_array_indices(arg, keep_adj_zeros=False)],
+               "zcf": [int(i) for i in zcf],
                "zct": [int(i) for i in pc.get_zero_crossings_array_indices(arg, keep_adj_zeros=True)],
-               "sw": [int(i) for i in pc.get_switched_peak_array_indices(arg)],
+               "sw": [int(i) for i in sw0],
                "zcf_tol": [int(i) for i in pc.get_zero_crossings_array_indices(arg, keep_adj_zeros=False, tol=tol)],
                "zct_tol": [int(i) for i in pc.get_zero_crossings_array_indices(arg, keep_adj_zeros=True, tol=tol)],
                "sw_tol": [int(i) for i in pc.get_switched_peak_array_indices(arg, tol=tol)]}
@@ -92,7 +104,7 @@ def run(tier, seed):
     rep = Report("C12", tier, seed)
     wd = workdir("C12")
     alph = [(5, -2, 7 if tier == "quick" else 8), (7, -3, 5 if tier == "quick" else 6)]
-    twin = 5 if tier == "quick" else 6
+    twin = 4 if tier == "quick" else 6
     for nl, lo, maxlen in alph:
         tab = os.path.join(wd, "table_%d.txt" % nl)
         nrows = gen.build_table(tab, nl, maxlen, RowFn(nl, lo))
